@@ -1,5 +1,6 @@
 import FordModel.Proto
 import FordModel.Graph
+import FordModel.GraphLabel
 namespace Ford
 open Proto Graph
 
@@ -69,11 +70,14 @@ def showRows (ft loopsFirst : Bool) (tab : Table) (roots : List Node) (g : GStat
     joinSep ',' ((tableRows ft r (reorder loopsFirst g.hopEdges)).map fun (n, s) => showNat n ++ [':'] ++ showStyle s)
   | _, _ => []
 
-/-- label|added|edges|truncated|hopNodes|hopEdges|shown|rows|rows with the self-loops first -/
-def showGraph (ft : Bool) (tab : Table) (roots : List Node) (label : Str) (g : GState) : Str :=
+/-- label|added|edges|truncated|hopNodes|hopEdges|shown|rows|rows with the self-loops first|rowspan of the
+    root's cell|number of `<tr>` (the last two 0 unless the graph is shown as a table) -/
+def showGraph (ft : Bool) (tab : Table) (roots : List Node) (label : Str) (g : GState) (fr : Bool := false) : Str :=
+  let isTable := shownCode tab roots g == ['t']
   joinSep '|' [label, showNats g.added, showEdges g.edges, showTrunc g.truncated,
     showNats g.hopNodes, showEdges g.hopEdges, shownCode tab roots g, showRows ft false tab roots g,
-    showRows ft true tab roots g]
+    showRows ft true tab roots g, showNat (if isTable then rootSpan fr g else 0),
+    showNat (if isTable then tableTrs g else 0)]
 
 def className : GClass → Str
   | .module => "module".toList | .uses => "uses".toList | .usedBy => "usedby".toList
@@ -109,17 +113,19 @@ def dispatchC13 : List Str → Option (List Str)
         -- decided by the first edge that is not a self-loop)
         let vs := splitOn '+' variant
         let ft := vs.contains ['t']
+        -- +r: the root's cell of the table spans the rows written for the edges (fixes/C13-table-rootspan.diff)
+        let fr := vs.contains ['r']
         let r := graphAll (vs.head? == some "fixed".toList) (vs.contains ['b']) tab (natList order)
         if !r.ok then some ["fuel".toList]
         else
           let regs := registered tab (natList order)
           some (["ok".toList,
-                 showGraph ft tab r.useRoots "proj:module".toList r.useGraph,
-                 showGraph ft tab (regs.filter (isKind tab .type)) "proj:type".toList r.typeGraph,
-                 showGraph ft tab r.callRoots "proj:call".toList r.callGraph,
-                 showGraph ft tab (regs.filter (isKind tab .file)) "proj:file".toList r.fileGraph,
+                 showGraph ft tab r.useRoots "proj:module".toList r.useGraph fr,
+                 showGraph ft tab (regs.filter (isKind tab .type)) "proj:type".toList r.typeGraph fr,
+                 showGraph ft tab r.callRoots "proj:call".toList r.callGraph fr,
+                 showGraph ft tab (regs.filter (isKind tab .file)) "proj:file".toList r.fileGraph fr,
                  showData "data1".toList r.nd1, showData "data2".toList r.nd2]
-                ++ r.perEntity.map fun (e, c, g) => showGraph ft tab [e] (showNat e ++ [':'] ++ className c) g)
+                ++ r.perEntity.map fun (e, c, g) => showGraph ft tab [e] (showNat e ++ [':'] ++ className c) g fr)
       | _ => some ["bad-request".toList]
     else if cmd == "c13.callnodes".toList then
       -- c13.callnodes <calls> ent*
@@ -144,6 +150,27 @@ def dispatchC13 : List Str → Option (List Str)
           let cfg : Cfg := { succ := succOf tab nd c, nested := c.nested, filterAdded := c.filterAdded false,
                              maxNesting := natOf mn, maxNodes := natOf mx }
           some ["ok".toList, showGraph false tab rs cls (runGraph cfg rs)]
+      | _ => some ["bad-request".toList]
+    else if cmd == "c13.complabels".toList then
+      -- c13.complabels <component prototypes in declaration order>
+      -- -> the dict `comp_types` of the new node in insertion order (`t:i.j,...`: label of `t` = positions i, j)
+      --    and, for each of its keys, the entry `comp_of[new node]` of that node
+      match args with
+      | comps :: _ =>
+        let cs := natList comps
+        let d := compLoop cs 0 []
+        let showLabel := fun (k : Nat) (l : List Nat) => showNat k ++ [':'] ++ joinSep '.' (l.map showNat)
+        some ["ok".toList, joinSep ',' (d.map fun (k, l) => showLabel k l),
+              joinSep ',' (d.map fun (k, _) => showLabel k (compOfLoop k cs 0 []))]
+      | _ => some ["bad-request".toList]
+    else if cmd == "c13.proclabel".toList then
+      -- c13.proclabel <show_proc_parent 0|1> <has parent 0|1> <has binder 0|1> <name> <parent> <binder>
+      -- -> the label `ProcNode.__init__` gives the node
+      match args with
+      | sp :: hp :: hb :: name :: parent :: binder :: _ =>
+        some ["ok".toList, procLabel (sp == ['1'])
+          { name := name, parent := if hp == ['1'] then some parent else none,
+            binder := if hb == ['1'] then some binder else none }]
       | _ => some ["bad-request".toList]
     else none
   | [] => none
